@@ -29,6 +29,8 @@ INVARIANT TimeAdvances
 INVARIANT TimeIsSteps
 INVARIANT ActInRange
 INVARIANT ActLaw
+INVARIANT EnclosureOK
+INVARIANT FilterExactLaw
 INVARIANT ActFrozen
 INVARIANT SemiImplicit
 INVARIANT UpdateEq
